@@ -79,8 +79,67 @@ Definition mm_getlist (l : list (str * str)) (k : str) : list str :=
   map snd (filter (fun kv => list_eqb k (fst kv)) l).
 (* well-formed concrete state: unique keys (Python dict) *)
 Definition md_wf (d : mdict) : Prop := NoDup (map fst d).
+Definition nonempty_row (l : list str) : bool := match l with [] => false | _ => true end.
 Definition md_nonempty (d : mdict) : Prop := forall k l, In (k, l) d -> l <> [].
 
 (* ------------------------------------------------------------------ EnvironHeaders *)
 (* a WSGI environ key as servers produce them: upper-case letters, digits and underscore *)
 Definition wsgi_key (k : str) : bool := forallb (fun c => is_upper c || is_digit c || (c =? 95)) k.
+
+(* ------------------------------------------------------------------ the abstract multimap as a step function *)
+(* the abstract state is the pair list; its keys (first occurrences) and rows are read off it, an operation is
+   described by the keys and rows afterwards, and the new pair list is rebuilt from them *)
+Definition mm_rebuild (ks : list str) (g : str -> list str) : list (str * str) :=
+  flat_map (fun k => map (pair k) (g k)) ks.
+Definition mm_keys (l : list (str * str)) : list str := first_keys l [].
+Definition ks_remove (k : str) (ks : list str) : list str := filter (fun k' => negb (list_eqb k k')) ks.
+Definition ks_add (k : str) (ks : list str) : list str := if smem k ks then ks else ks ++ [k].
+
+Definition mm_setrow (l : list (str * str)) (k : str) (row : list str) : list (str * str) :=
+  mm_rebuild (ks_add k (mm_keys l)) (fun k' => if list_eqb k k' then row else mm_getlist l k').
+Definition mm_add (l : list (str * str)) (kv : str * str) : list (str * str) :=
+  mm_setrow l (fst kv) (mm_getlist l (fst kv) ++ [snd kv]).
+Definition mm_delrow (l : list (str * str)) (k : str) : list (str * str) :=
+  mm_rebuild (ks_remove k (mm_keys l)) (mm_getlist l).
+
+Definition mm_step (l : list (str * str)) (o : mop) : list (str * str) * res out :=
+  let ks := mm_keys l in
+  let g := mm_getlist l in
+  match o with
+  | MSetItem k v => (mm_setrow l k [v], Ok ONone)
+  | MAdd k v => (mm_add l (k, v), Ok ONone)
+  | MSetList k vs => (mm_setrow l k vs, Ok ONone)
+  | MSetDefault k v =>
+      if smem k ks then (l, Ok (OStr (hd [] (g k)))) else (mm_setrow l k [v], Ok (OStr v))
+  | MSetListDefault k dl =>
+      if smem k ks then (l, Ok (OList (g k)))
+      else let row := match dl with Some x => x | None => [] end in (mm_setrow l k row, Ok (OList row))
+  | MUpdate a | MIor a => (fold_left mm_add (marg_items a) l, Ok ONone)
+  | MPop k dflt =>
+      if smem k ks then (mm_delrow l k, Ok (OStr (hd [] (g k))))
+      else (l, match dflt with Some x => Ok (OStr x) | None => Err KeyError end)
+  | MPopItem =>
+      match rev ks with
+      | [] => (l, Err KeyError)
+      | k :: _ => (mm_delrow l k, Ok (OPair k (hd [] (g k))))
+      end
+  | MPopList k => if smem k ks then (mm_delrow l k, Ok (OList (g k))) else (l, Ok (OList []))
+  | MPopItemList =>
+      match rev ks with
+      | [] => (l, Err KeyError)
+      | k :: _ => (mm_delrow l k, Ok (OKList k (g k)))
+      end
+  | MClear => ([], Ok ONone)
+  | MDelItem k => if smem k ks then (mm_delrow l k, Ok ONone) else (l, Err KeyError)
+  end.
+
+(* the known finding as the explicit guard: an operation that would store an empty row *)
+Definition mop_ok (o : mop) : bool :=
+  match o with
+  | MSetList _ [] => false
+  | MSetListDefault _ None | MSetListDefault _ (Some []) => false
+  | _ => true
+  end.
+Definition md_exec (d : mdict) (ops : list mop) : mdict := fold_left (fun d o => fst (md_step d o)) ops d.
+Definition mm_exec (l : list (str * str)) (ops : list mop) : list (str * str) := fold_left (fun l o => fst (mm_step l o)) ops l.
+Definition md_nonemptyb (d : mdict) : bool := forallb (fun kv => nonempty_row (snd kv)) d.
